@@ -559,6 +559,13 @@ class Extractor:
                     add(a, '\n' + ls['after'] + '\n')
             for at in sp.get('at', []):
                 self.place_at(ftoks, fitem, at, add, path)
+            for asr in sp.get('assert', []):
+                c = Clause(asr['label'], list(asr.get('own', [])), list(asr.get('dep', [])), asr['text'])
+                self.register_clause(c, path, 'site assertion', module)
+                rec.labels.append(c.label)
+                at = dict(anchor=asr['anchor'], where=asr.get('where', 'before'), nth=asr.get('nth'),
+                          text='proof { assert(%s); /*#%s*/ }' % (asr['text'].strip(), asr['label']))
+                self.place_at(ftoks, fitem, at, add, path)
         elif sp.get('entry') or loop_specs or sp.get('at'):
             raise ExtractError('%s: body annotations on a fn without body' % path)
         # render
@@ -804,7 +811,7 @@ class Extractor:
                         self.rule('R3'); t = t2
                 out.append(('raw', None, t + '\n'))
         for f in fnspecs:
-            if (mod, f) not in self.used_fn_specs:
+            if (mod, f) not in self.used_fn_specs and not fnspecs[f].get('optional'):
                 raise ExtractError('%s: spec for fn %s has no matching function in the source (lost anchor)' % (mod, f))
         for h in implspecs:
             if (mod, h) not in self.used_impl_specs:
@@ -815,7 +822,7 @@ class Extractor:
     def build(self, modules=None):
         mods = modules or self.unit['modules']
         chunks = []   # list of (kind, rec, text)
-        hdr = ['#![allow(unused_imports, dead_code, non_camel_case_types, unused_variables, unused_mut, unused_assignments, non_upper_case_globals, unused_parens, unused_braces)]',
+        hdr = ['#![feature(allocator_api)]', '#![allow(unused_imports, dead_code, non_camel_case_types, unused_variables, unused_mut, unused_assignments, non_upper_case_globals, unused_parens, unused_braces)]',
                'use vstd::prelude::*;', 'verus! {', 'global size_of usize == %d;' % self.usize_bytes]
         chunks.append(('raw', None, '\n'.join(hdr) + '\n'))
         pre_files = self.spec.units['prelude']['files']
